@@ -426,6 +426,47 @@ def check_globals(ctx, num=4):
                "reaches every later run)", False, f, dec, construct=f"@{nm_} on {f.qual}", detail=f"{f.mod.rel}::{f.qual} is decorated with {norm.U(dec)}")
     if not memo:
         ctx.ob(num, "K11", "no function of the package is memoised", True, file="eudoxia", construct="memoisation decorators", detail="0 functions decorated with " + "/".join(sorted(MEMO)))
+    # objects created once per process (module- or class-level `X = Cls(..)`, or containers of such) are process-global state when their class
+    # keeps changing them after construction: a cache filled in one run is read by the next (the seeded "shared prototype segments" change)
+    classes = {}
+    for m in P.real_modules():
+        for cname, c in m.classes.items():
+            classes[cname] = c
+    shared = []
+    for m in P.real_modules():
+        scopes = [("", m.tree.body)] + [(c.name + ".", c.node.body) for c in m.classes.values()]
+        for prefix, body in scopes:
+            for st in body:
+                if isinstance(st, (ast.Assign, ast.AnnAssign)) and getattr(st, "value", None) is not None:
+                    for c_ in ast.walk(st.value):
+                        if isinstance(c_, ast.Call) and isinstance(c_.func, ast.Name) and c_.func.id in classes and not any(
+                                isinstance(b, ast.Name) and b.id in ("Enum", "IntEnum", "NamedTuple", "Exception") for b in classes[c_.func.id].node.bases):
+                            tg = st.targets[0] if isinstance(st, ast.Assign) else st.target
+                            shared.append((m, prefix + norm.U(tg), c_.func.id, st))
+    for m, name, cname, st in shared:
+        c = classes[cname]
+        writers = []
+        for mn, meth in c.methods.items():
+            if mn in ("__init__", "__post_init__", "__new__"):
+                continue
+            for n in own_nodes(meth.node):
+                tg = []
+                if isinstance(n, (ast.Assign, ast.Delete)):
+                    tg = n.targets
+                elif isinstance(n, (ast.AugAssign, ast.AnnAssign)):
+                    tg = [n.target]
+                for t in tg:
+                    for x in ast.walk(t):
+                        if isinstance(x, ast.Attribute) and norm.is_name(x.value, "self") and isinstance(x.ctx, (ast.Store, ast.Del)):
+                            writers.append(f"{cname}.{mn}")
+                        if isinstance(x, ast.Subscript) and isinstance(x.ctx, (ast.Store, ast.Del)) and isinstance(x.value, ast.Attribute) and norm.is_name(x.value.value, "self"):
+                            writers.append(f"{cname}.{mn}")
+                if isinstance(n, ast.Call) and isinstance(n.func, ast.Attribute) and n.func.attr in MUTATORS and isinstance(n.func.value, ast.Attribute) \
+                        and norm.is_name(n.func.value.value, "self"):
+                    writers.append(f"{cname}.{mn}")
+        ctx.ob(num, "K11", "an object that lives as long as the process (module- or class-level instance) is never changed after it was built", not writers,
+               Func(m, "<module>", m.tree, None), st, construct=f"process-wide {name} = {cname}(..)",
+               detail=f"{cname} objects are written by {sorted(set(writers))} after construction" if writers else f"{cname} has no method that stores to its fields after construction")
     # the container counter flows only into container_id
     ci = P.fn(CT, "Container.__init__")
     reads = [n for n in own_nodes(ci.node) if isinstance(n, ast.Attribute) and n.attr == "next_container_num" and isinstance(n.ctx, ast.Load)]
@@ -556,7 +597,48 @@ def check_workload_per_run(ctx, num=6):
            detail=f"{n_sites} site(s) pass a named workload object", nontrivial=False, file=SIM)
 
 
+def check_defaults(ctx, num=5):
+    """What a parameter file leaves out is filled in from one fixed table: a default never depends on what the file does say (a workload
+    default computed from an executor or scheduler setting would tie the workload to the cluster it is run on)."""
+    P = ctx.P
+    f = P.fn(SIM, "parse_args_with_defaults")
+    ctx.touch(f)
+    defs = [n for n in own_nodes(f.node) if isinstance(n, ast.Assign) and len(n.targets) == 1 and isinstance(n.targets[0], ast.Name)
+            and isinstance(n.value, ast.Call) and norm.call_name(n.value) == "get_param_defaults"]
+    ctx.ob(num, "K6", "missing parameters are filled in from get_param_defaults()", len(defs) == 1, f, defs[0] if defs else f.node, construct="defaults = get_param_defaults()",
+           detail=f"{[stmt_text(d) for d in defs]}")
+    if len(defs) != 1:
+        return
+    D = defs[0].targets[0].id
+    bad = []
+    for n in own_nodes(f.node):
+        tg = []
+        if isinstance(n, (ast.Assign, ast.Delete)):
+            tg = n.targets
+        elif isinstance(n, (ast.AugAssign, ast.AnnAssign)):
+            tg = [n.target]
+        for t in tg:
+            if isinstance(t, ast.Subscript) and norm.is_name(t.value, D):
+                bad.append(n)
+            if isinstance(t, ast.Name) and t.id == D and n is not defs[0]:
+                bad.append(n)
+        if isinstance(n, ast.Call) and isinstance(n.func, ast.Attribute) and norm.is_name(n.func.value, D) and n.func.attr in ("update", "pop", "setdefault", "clear", "popitem", "__setitem__"):
+            bad.append(n)
+    ctx.ob(num, "K1", "the table of defaults is used as it is: no entry is computed from the parameters that were supplied", not bad, f, bad[0] if bad else defs[0],
+           construct=f"no store to {D}[..]", detail=f"{[stmt_text(b)[:90] for b in bad]}" if bad else "the defaults table is only read")
+    gd = P.fn(SIM, "get_param_defaults")
+    ctx.touch(gd)
+    okp = not [p_ for p_ in gd.params()]
+    ann = {id(x) for a_ in ([gd.node.returns] if gd.node.returns is not None else []) + [n.annotation for n in own_nodes(gd.node) if isinstance(n, ast.AnnAssign)] for x in ast.walk(a_)}
+    reads = sorted({x.id for x in own_nodes(gd.node) if isinstance(x, ast.Name) and isinstance(x.ctx, ast.Load) and id(x) not in ann}
+                   - {"Priority", "True", "False", "None", "dict", "float", "int"})
+    local = {x.id for x in own_nodes(gd.node) if isinstance(x, ast.Name) and isinstance(x.ctx, ast.Store)}
+    ctx.ob(num, "K10", "get_param_defaults() takes no argument and computes its table from literals only", okp and not (set(reads) - local), gd, gd.node,
+           construct="constant defaults", detail=f"parameters: {gd.params()}; names read: {reads}")
+
+
 def run(ctx):
+    check_defaults(ctx, 5)
     check_workload_per_run(ctx, 6)
     check_set_iteration(ctx, 1)
     check_identifiers(ctx, 2)
